@@ -124,6 +124,11 @@ func (s *Scope) common(a, b ssa.Instruction) (ssa.Instruction, ssa.Instruction, 
 	return nil, nil, false
 }
 
+// Common is the exported form of common.
+func (s *Scope) Common(a, b ssa.Instruction) (ssa.Instruction, ssa.Instruction, bool) {
+	return s.common(a, b)
+}
+
 // Before: a executes before b on every path to b (lifted dominance).
 func (s *Scope) Before(a, b ssa.Instruction) bool {
 	x, y, ok := s.common(a, b)
